@@ -146,17 +146,23 @@ def _floor(e, st, args, kw, n):
     raise Unsupported('floor')
 
 
-@builtin('numpy.sqrt', 'math.sqrt')
+SQRTF = z3.Function('SQRT', z3.RealSort(), z3.RealSort())
+
+
+@builtin('numpy.sqrt', 'math.sqrt', 'sqrt')
 def _sqrt(e, st, args, kw, n):
     v = args[0]
     if isinstance(v, (int, float)):
         v = e.tosv(float(v))
     if isinstance(v, SV):
         v = e.toreal(v)
-        r = fresh('sqrt', z3.RealSort())
+        # sqrt is a function (equal arguments give the same term); each application contributes its defining instance
+        r = SQRTF(simp(v.t))
         if not e.specmode:
             e.oblige(st, 'domain', v.t >= 0, n)
-        st.pc.append(z3.And(r >= 0, r * r == v.t))
+        fact = z3.And(r >= 0, r * r == v.t)
+        if not any(fact.eq(x) for x in st.pc[-30:]):
+            st.pc.append(fact)
         return SV(r, 'real')
     raise Unsupported('sqrt')
 
